@@ -17,7 +17,8 @@ import mutate  # noqa  (gen_mutants / apply)
 
 VERIF = os.path.dirname(HERE)
 SRC = os.environ.get('REPLAY_SRC', '/repo')      # a frozen snapshot of the library (so that /repo can keep changing)
-ROOT = '/root/scratch/replay'
+ROOT = os.environ.get('REPLAY_ROOT', '/root/scratch/replay')
+ONLY = os.environ.get('REPLAY_ONLY')      # json list of [file, func, kind, variant, source line text]: replay these mutants only
 
 # dead or out-of-scope code (DESIGN section 8): mutants there are equivalent by construction; recorded, not replayed
 DEAD = ('simple_build_indices', 'view_cols', '_build_indices', 'c_extract_segments', '__apply_binary_func', '__from_intervals',
@@ -42,7 +43,7 @@ def checks_for(f, fn):
             return ['C01', 'C02', 'C09', 'C05']
         if 'fast' in last:
             return ['C12', 'C11', 'C02']
-        return ['C02', 'C03', 'C06', 'C12', 'C01']
+        return ['C02', 'C03', 'C19', 'C06', 'C12', 'C01']
     if f.endswith('raggedarray/base.py'):
         return ['C06', 'C10', 'C02', 'C03', 'C01']
     if f.endswith('raggedarray/indexablearray.py'):
@@ -120,6 +121,7 @@ def worker(args):
     env = {**os.environ, 'PYTHONDONTWRITEBYTECODE': '1', 'NPS_REPO': wrepo, 'REPLAY_VERIF': wverif}
     env.pop('VERIF_LEAN_DIR', None); env.pop('VERIF_OUT_DIR', None)
     log = open(f'{ROOT}/results_w{wid}.jsonl', 'a')
+    only = None if not ONLY else {tuple(x) for x in json.load(open(ONLY))}
     for f, mut in jobs:
         key = f'{f}|{mut[0]}|{mut[1]}|{mut[2]}'
         if key in done:
@@ -131,6 +133,8 @@ def worker(args):
         except Exception:
             continue
         if new == ast.unparse(ast.parse(src)):
+            continue
+        if only is not None and (f, fn, mut[1], mut[2], src.splitlines()[line - 1].strip() if line else '') not in only:
             continue
         rec = {'key': key, 'file': f, 'func': fn, 'line': line, 'kind': mut[1], 'variant': mut[2]}
         open(os.path.join(wrepo, f), 'w').write(new)
